@@ -53,6 +53,25 @@ var transTargets = []transTarget{
 	{"node/elasticsearch/elastic_index_client.go", "ElasticIndexClient", "handleErrorResponses", "loop1", "esItemBody"},
 	// C15
 	{"node/kafkaproducer/kafkaproducer.go", "KafkaProducer", "Process", "", "kpProcess"},
+	// C04 / C01 (root delivery, F11)
+	{"executor/executor.go", "Executor", "Execute", "loop2", "exRootDeliverBody"},
+	// C18
+	{"executor/executor.go", "Executor", "prepareSource", "", "exPrepareSource"},
+	{"executor/executor.go", "Executor", "superviseSource", "loop0", "exSuperviseBody"},
+	// C13
+	{"config/config.go", "", "Read", "", "cfgRead"},
+	{"config/config.go", "", "assignNodeConfigDefaults", "", "cfgNodeDefaults"},
+	{"config/config.go", "", "validateErrorHandlerConfig", "", "cfgValidateHandler"},
+	{"config/config.go", "", "validateInternalDataConfig", "", "cfgValidateInternalData"},
+	{"config/config.go", "", "validateNodeConfig", "loop0", "cfgChildTypeBody"},
+	{"config/config.go", "", "validateSourceConfig", "loop0", "cfgRootTypeBody"},
+	{"config/config.go", "", "validateUniqueID", "head0", "cfgUniqueIDHead"},
+	{"config/config.go", "", "validateUniqueID", "loop0", "cfgUniqueIDBody"},
+	// C20
+	{"helpers.go", "Nodeconfig", "IntConfigRequired", "", "intConfigRequired"},
+	{"helpers.go", "Nodeconfig", "IntConfig", "", "intConfig"},
+	{"helpers.go", "Nodeconfig", "StringConfigRequired", "", "stringConfigRequired"},
+	{"helpers.go", "Nodeconfig", "StringConfig", "", "stringConfig"},
 	// C10
 	{"message/kakfamessagereceiver.go", "KafkaMessageReceiver", "processMessage", "", "mrProcessMessage"},
 	{"message/kakfamessagereceiver.go", "KafkaMessageReceiver", "buildPartitionAssignments", "loop0", "mrStartOffsetBody"},
@@ -352,7 +371,7 @@ func (t *translator) stmt(s ast.Stmt) []string {
 					// v, ok := x.(T): both results are inputs
 					return t.withPre(s, func() string {
 						fn := "assert " + exprString(ta.Type)
-						return fmt.Sprintf("(.call [(%s, %s), (%s, %s)] %s [%s])", leanStr(lhs[0]), leanStr(fn+"#0"), leanStr(lhs[1]), leanStr(fn+"#1"), leanStr(fn), t.loose(ta.X))
+						return fmt.Sprintf("(.call [%s] %s [%s])", bindPairs(lhs, fn), leanStr(fn), t.loose(ta.X))
 					})
 				}
 				if cl := compositeOf(x.Rhs[0]); cl != nil && len(lhs) == 1 && cl.Type != nil && len(cl.Elts) > 0 {
@@ -375,7 +394,7 @@ func (t *translator) stmt(s ast.Stmt) []string {
 					// v, ok = m[k]: a lookup; both results are inputs
 					return t.withPre(s, func() string {
 						fn := "lookup " + exprString(ix.X)
-						return fmt.Sprintf("(.call [(%s, %s), (%s, %s)] %s [%s])", leanStr(lhs[0]), leanStr(fn+"#0"), leanStr(lhs[1]), leanStr(fn+"#1"), leanStr(fn), t.loose(ix.Index))
+						return fmt.Sprintf("(.call [%s] %s [%s])", bindPairs(lhs, fn), leanStr(fn), t.loose(ix.Index))
 					})
 				}
 				if len(lhs) == 1 {
@@ -462,8 +481,22 @@ func (t *translator) stmt(s ast.Stmt) []string {
 		if x.Tok == token.CONTINUE && x.Label == nil {
 			return []string{"(.ret [])"} // the fragment is a loop body: `continue` ends this iteration
 		}
+		if x.Tok == token.BREAK && x.Label == nil {
+			return []string{"(.ret [(.lit 1)])"} // the fragment is a loop body: `break` ends the loop - marked by the value 1
+		}
 	}
 	return unsupported()
+}
+
+// bindPairs: (variable, input it is read from) for each result that is not discarded with `_`
+func bindPairs(lhs []string, fn string) string {
+	var rs []string
+	for i, l := range lhs {
+		if l != "_" {
+			rs = append(rs, fmt.Sprintf("(%s, %s)", leanStr(l), leanStr(fmt.Sprintf("%s#%d", fn, i))))
+		}
+	}
+	return strings.Join(rs, ", ")
 }
 
 func compositeOf(e ast.Expr) *ast.CompositeLit {
